@@ -99,10 +99,20 @@ def _sym_buf(it, arr, name):
     return Ptr(Obj(name, bridge._Flat(arr), 8), 0)
 
 
-def h_rad_orb(env, nalpha=2, stride=3, offset=1):
+def _atco_nine(W):
+    """3 s + 2 p shells on one atom, 2 s + 2 p on the other: three schedule(dynamic, 4) chunks, the third one starting in the middle
+    of an atom with the angular momentum the first one ended with"""
+    if "atco9" not in W:
+        lc = W["lc"]
+        etb = [[(0, 3, 0.5, 2.0), (1, 2, 0.7, 2.0)], [(0, 2, 0.9, 2.0), (1, 2, 0.6, 2.0)]]
+        W["atco9"] = lc.ATCBasis(*lc.get_gamma_lists_from_etb_list(etb))
+    return W["atco9"]
+
+
+def h_rad_orb(env, nalpha=2, stride=3, offset=1, basis="small"):
     """contract_rad_to_orb (A: radial x Ylm -> orbital coefficients) / contract_orb_to_rad (B), real ATCBasis in process memory"""
     W = _real_world()
-    atco = W["atco"]
+    atco = W["atco"] if basis == "small" else _atco_nine(W)
     nao = atco.nao
     lmax = 1
     nlm = (lmax + 1) ** 2
